@@ -364,21 +364,22 @@ def signKey (k : SigningKey) (payload : Bytes) : PO Bytes :=
           else pure (Bytes.encodeBE c.size r.toNat ++ Bytes.encodeBE c.size s.toNat)
         | _ => PO.fail "sign"
   | .ed25519 priv _ canSign _ =>
-    if !canSign then PO.fail "sig-unavailable"
-    else match priv with
-      -- ed25519.Sign panics on a private key of the wrong length (nil included)
-      | Option.none => PO.panic "ed25519.Sign.privlen"
-      | some p =>
-        if p.length != 64 then PO.panic "ed25519.Sign.privlen"
-        else askBytes "c02.ed25519.sign" [.bytes p, .bytes payload]
+    -- eddsa.go: `if key.priv == nil || !key.canSign { return nil, sig.ErrSignUnavailable }`
+    match priv with
+    | Option.none => PO.fail "sig-unavailable"
+    | some p =>
+      if !canSign then PO.fail "sig-unavailable"
+      -- ed25519.Sign panics on a private key of the wrong length
+      else if p.length != 64 then PO.panic "ed25519.Sign.privlen"
+      else askBytes "c02.ed25519.sign" [.bytes p, .bytes payload]
   | .ed448 priv _ canSign _ =>
-    if !canSign then PO.fail "sig-unavailable"
-    else match priv with
-      | Option.none => PO.panic "ed448.Sign.privlen"
-      | some p =>
-        -- ed448.go:151 `privateKey[:SeedSize]` (the length is not otherwise checked)
-        if p.length < 57 then PO.panic "ed448.Sign.privlen"
-        else askBytes "c02.ed448.sign" [.bytes p, .bytes payload]
+    match priv with
+    | Option.none => PO.fail "sig-unavailable"
+    | some p =>
+      if !canSign then PO.fail "sig-unavailable"
+      -- ed448.go:151 `privateKey[:SeedSize]` (the length is not otherwise checked)
+      else if p.length < 57 then PO.panic "ed448.Sign.privlen"
+      else askBytes "c02.ed448.sign" [.bytes p, .bytes payload]
   | .none => pure []
 
 /-! ## wire decoding of key descriptions (driver side and `findKey` answers) -/
